@@ -1573,7 +1573,7 @@ def sort_seq(I, v, key, reverse=False):
         # earlier components are equal, and raises TypeError then (unless the rest is equal too).  Definedness
         # obligation: no two elements agree on the orderable prefix without being equal; the order is the prefix's.
         def _orderable(t):
-            return (isinstance(t, (type(TInt), type(TStr), type(TBool), type(TReal))) or
+            return (isinstance(t, (type(TInt), type(TStr), type(TBool), type(TReal), TUn)) or
                     (isinstance(t, TTuple) and all(_orderable(x) for x in t.elems)))
         nord = 0
         while nord < len(v.et.elems) and _orderable(v.et.elems[nord]):
